@@ -46,6 +46,50 @@ CHECKS = {
              "Exact ties may resolve either way. Diagram drawing is stubbed during the walk (real in the hand-over).",
         technique="TLC model checking of Pick.tla + replay of every event sequence on the real dialog and mpe_from_plot",
     ),
+    "C09": dict(
+        text="Poles.tla, action HardCriteria: TLC enumerates unfiltered pole tables over a classified cell alphabet "
+             "(conjugate present/absent, damping <=0 / ok / >= max, catalogue shapes on either side of the MPC / MPD "
+             "limits, covariance below / above the maximum) and every on/off combination of the criteria, and checks "
+             "Sound, Complete, ValuesUnchanged; every case is injected as the unfiltered solution of the real run() of "
+             "SSIdat, SSIcov, SSIdat_MS, SSIcov_MS, pLSCF, pLSCF_MS and the NaN pattern of every stored table must equal "
+             "the specification's post-state, retained values bit-identical.",
+        ref="DESIGN.md §4.5, §5 C09",
+        note="Trusted: TLC, harness/poles_world.py (catalogue -> numpy tables with real conjugate twin rows; the "
+             "pole-producing functions are patched in the harness process), gen.MPC/gen.MPD as classifiers of the "
+             "catalogue shapes (margin >= 0.02).",
+        technique="TLC model checking of Poles.tla (HardCriteria) + replay of every case through the real run() methods",
+    ),
+    "C10": dict(
+        text="Poles.tla, action Label: TLC enumerates all pairs of adjacent columns over a cell alphabet with close / "
+             "far frequencies, dampings and Gaussian-integer shapes (MAC computed exactly as a rational) and all "
+             "placements of [ordmin, ordmax] over 5 columns for both column<->order maps, computes the set of admissible "
+             "labels per cell (two only on an exact tie) and checks NeverStable, LabelsDecided, LabelsPure; every case is "
+             "labelled by the real gen.SC_apply and by real SSIcov / pLSCF runs on injected tables.",
+        ref="DESIGN.md §4.5, §5 C10",
+        note="Trusted: TLC, harness/poles_world.py. Catalogue values sit >= 10 % away from every tolerance. step = 1.",
+        technique="TLC model checking of Poles.tla (Label) + replay of every case through SC_apply and the class runs",
+    ),
+    "C11": dict(
+        text="Poles.tla, action Extract: TLC enumerates labelled tables (spurious poles, missing modes, conjugate twins, "
+             "unstable poles) and requests (1..3 frequencies; order int, list, find_min) and computes the admissible "
+             "answer cells per request; checks Whole, OnlyIfClose, NearestReturned, Minimal; every case is handed to "
+             "SSI_mpe, pLSCF_mpe, SSIcov.mpe, pLSCF.mpe and each returned mode must be bit-identical to one admissible "
+             "cell in every attribute (frequency, damping, shape, covariances), reported order included.",
+        ref="DESIGN.md §4.5, §5 C11",
+        note="Trusted: TLC, harness/poles_world.py. Frequencies within rtol/10 of a request or >= 10 rtol away. One "
+             "listed known finding (pLSCF_mpe find_min never returns anything; pinned by a baseline test).",
+        technique="TLC model checking of Poles.tla (Extract) + replay of every case through the four extraction sites",
+    ),
+    "C20": dict(
+        text="Poles.tla, action Draw (MarkersExact): TLC enumerates pole/label tables with NaN, stable and unstable "
+             "cells and hide on/off and yields the exact marker cell sets; each case is drawn on the Agg backend by "
+             "stab_plot, cluster_plot, SSIcov/pLSCF plot_stab/plot_cluster (with and without covariance error bars) "
+             "and the marker artists are projected onto coordinate multisets (order coordinate = value accepted by "
+             "extraction). Fdd.tla action DrawCMIF gives the exact dB ratios of the singular-value curves.",
+        ref="DESIGN.md §4.5, §5 C20",
+        note="Trusted: TLC, matplotlib artist accessors. Error-bar caps / LineCollections are not markers.",
+        technique="TLC model checking of Poles.tla (Draw) / Fdd.tla (DrawCMIF) + replay through the plot functions and methods",
+    ),
 }
 
 NOT_APPLICABLE = [
